@@ -88,7 +88,10 @@ def gen_case(rng):
     calls = []
     for _ in range(rng.choice([1, 1, 2])):
         if rng.random() < .5:
-            calls.append(dict(quantiles=[rng.choice([0.3, 0.5, 0.7]) for _ in range(rng.randint(1, 3))]))
+            qs = [rng.choice([0.3, 0.5, 0.7]) for _ in range(rng.randint(1, 3))]
+            if rng.random() < .3:
+                qs[0] = rng.choice([0.9, 1.0])          # a first-round budget barely above n_samples
+            calls.append(dict(quantiles=qs))
         else:
             ths = sorted([rng.choice([2.0, 1.5, 1.2, 1.0, 0.8, 0.6]) for _ in range(rng.randint(1, 3))], reverse=True)
             calls.append(dict(thresholds=ths))
@@ -158,6 +161,14 @@ def one(ctx, case, reqs, meta):
             want = c.get('used_thresholds', c['thresholds'])[idx_in_call[r]]
             if not (pop.threshold <= want + 1e-12):
                 ctx.fail_input(where, 'population %d: threshold %r exceeds the user threshold %r' % (r, float(pop.threshold), want))
+                return
+        elif r == 0:
+            # the very first round of a quantile run has a simulation budget ceil(n / q0), consumed in whole batches (C01)
+            q0 = c['quantiles'][0]
+            want_sim = case['b'] * math.ceil(math.ceil(case['n'] / q0) / case['b'])
+            if pop.n_sim != want_sim or not np.all(np.isfinite(d)):
+                ctx.fail_input(where, 'first population of a quantile run: %d simulations (budget ceil(n/q) = %d in batches of %d -> %d), finite discrepancies: %s'
+                               % (pop.n_sim, math.ceil(case['n'] / q0), case['b'], want_sim, bool(np.all(np.isfinite(d)))), want_sim, int(pop.n_sim))
                 return
         elif r > 0:
             want = wq_ref(pops[r - 1].discrepancies, c['quantiles'][idx_in_call[r]], pops[r - 1].weights)
@@ -231,6 +242,8 @@ def process(ctx, n):
             case['calls'] = [dict(c) for c in forced[i]]
             if i in (1, 2):
                 case.update(prior='hier-scale', dim=2)
+        elif i == len(forced) + 3:               # first-round budget barely above n with a batch size that does not divide it
+            case.update(n=10, b=7, calls=[dict(quantiles=[0.9, 0.5])])
         elif i < len(forced) + 3:                # unit weights, population size a power of two, dyadic quantile: the cumulative
             case['n'] = [8, 16, 32][i - len(forced)]      # weight ties EXACTLY with alpha
             case['calls'] = [dict(quantiles=[0.5, [0.5, 0.25, 0.75][i - len(forced)]])]
